@@ -24,7 +24,16 @@ def run_family(res, fam, n, seed, builds=("default",), extra=(), glue="Col", glu
             else:
                 raise C.Infra("harness %s (%s) failed:\n%s" % (fam, build, log[-2000:]))
         rows = C.read_transcript(out, partial_ok=(rc != 0)) if os.path.exists(out) else []
-        model = C.run_eval(glue, [r[0] for r in rows])
+        # case lines beyond 600 KB (thorough tier: thousands of rows of wide or nested kinds) cost the list-based model
+        # minutes each: they are run on the implementation and judged by the direct oracle only
+        small = [i for i, r in enumerate(rows) if len(r[0]) <= 600000]
+        part = C.run_eval(glue, [rows[i][0] for i in small])
+        model = [r[1] for r in rows]
+        for i, m in zip(small, part):
+            model[i] = m
+        if len(small) != len(rows):
+            key = "%s.%s.lines_not_run_on_model" % (fam, build)
+            res.distribution[key] = res.distribution.get(key, 0) + len(rows) - len(small)
         C.compare_rows(res, rows, model, "correspondence(%s,%s)" % (fam, build))
         res.account(rows)
         for k, v in stats.items():
